@@ -53,6 +53,7 @@ double ll2c_abs_fdiv(double a, double b) { return absfp(); }
 void _ZN6engine6Search11init_searchEv(Search *s) { if (stop_point == 1) deliver_stop(); }
 uint64_t _ZNSt6chrono3_V212steady_clock3nowEv(void) {
   if (stop_point == 2 && !stop_delivered) deliver_stop();
+  { static int n_clk; if (stop_point == 140 + n_clk && !stop_delivered) deliver_stop(); n_clk++; }    /* ... or at any later clock read (between iterations) */
   int64_t d = nondet_i64(); __CPROVER_assume(d >= 0 && d <= 4000000000000000LL); clk += d; return (uint64_t)clk;
 }
 uint32_t *_ZN6engine14generate_movesERKNS_8PositionENS_5ColorEPj(Pos *p, uint32_t side, uint32_t *list) {
@@ -101,6 +102,7 @@ uint64_t _ZN6engine6Search6searchERNS_8PositionEillPNS_4InfoE(Search *s, Pos *p,
   return (uint64_t)v;
 }
 void _ZN6engine6Search10print_infoElilPNS_4InfoE(Search *s, uint64_t result, uint32_t depth, uint64_t elapsed, Info *info) {
+  if (stop_point == 160 + n_print && !stop_delivered) deliver_stop();   /* stop arrives while the search thread prints the info line (between the flag's reads in iter_search) */
   n_print++;
   PROP((int32_t)depth == last_depth + 1, "C09 iterations are reported consecutively 1,2,...");
   last_depth = (int32_t)depth;
